@@ -218,6 +218,7 @@ def run_c07(tier):
     corpus = CppCorpus(chk, chk.scale(5, 40))
     try:
         corpus.report_build_errors()
+        tr = traits(corpus)
         reqs = corpus.deft_requests()
         nd = len(reqs)
         seeds = []
@@ -242,7 +243,7 @@ def run_c07(tier):
         mans = client.batch(mreqs, timeout=1800)[nd:]
         worst = 0
         for (c, e, kind, bs), o, m in zip(meta, out, mans):
-            casej = {'schema': c.text, 'type': c.name, 'data': bs.hex(), 'endianness': e, 'stream': kind}
+            casej = {'schema': c.text, 'type': c.name, 'data': bs.hex(), 'endianness': e, 'stream': kind, 'tid': c.tid}
             chk.count((c.tree, bs.hex(), e), kind != 'valid')
             impl_outcome = 'fault' if o.get('fault') else 'exception' if o.get('exception') else 'accepted' if o.get('ok') else 'rejected'
             chk.bump('stream:' + kind)
@@ -259,7 +260,9 @@ def run_c07(tier):
                 if alloc > 4096 + 1024 * len(bs):
                     chk.property_violation(casej, {'what': 'decode requested %d bytes of memory for %d bytes of input' % (alloc, len(bs))})
                 if impl_outcome == 'accepted' and len(o.get('enc_native', '')) // 2 != len(bs):
-                    chk.property_violation(casej, {'what': 'accepted input of %d bytes re-encodes to %d bytes' % (len(bs), len(o.get('enc_native', '')) // 2), 'cpp': o})
+                    # the re-encoding of an accepted input is where D4 (optional<T> of a struct holding a vector) shows up in C07
+                    chk.property_violation(casej, {'what': 'accepted input of %d bytes re-encodes to %d bytes' % (len(bs), len(o.get('enc_native', '')) // 2), 'cpp': o},
+                                           d4(tr) if (o.get('overrun') or o.get('ptr_written') != o.get('size')) else None)
             chk.corr_compared += 1
             if impl_outcome != m['outcome']:
                 chk.correspondence_mismatch('Cpp.decode outcome = generated decode (malformed stream)', casej, impl_outcome, m)
